@@ -164,7 +164,10 @@ func (f *Formatter) formatComment(comments ast.Comments, sep string, level int) 
 
 	buf.Reset()
 	for i := range comments {
-		if comments[i].PreviousEmptyLines > 0 {
+		// An empty line before a comment is kept for comments printed on lines of their own only:
+		// inside a line ("if <LF><LF> /* c */ (cond)") the line feed would move the comment to a
+		// line of its own, where the next pass no longer finds an empty line before it.
+		if comments[i].PreviousEmptyLines > 0 && sep == "\n" {
 			buf.WriteString("\n")
 		}
 		// Successive comments printed without separator are divided by a whitespace
